@@ -2,10 +2,11 @@
    semantics M (ReSem): if the analysis says "not nullable", every derivation strictly advances the position.
    Applied by computation to the generated direction marks (GenConf.dirmarks): the tree the model's parser builds of
    every mark pattern is not nullable, and the syntactic string-level analysis DirDefs.pat_nullable (C18) agrees with the
-   tree-level one on them.  Not proved: pat_nullable p = false -> tnull (tree of p) = false for EVERY pattern string
-   (a simulation between DirDefs' own scanner and the regex parser). *)
+   tree-level one on them.  The implication pat_nullable p = false -> "every match advances" is FALSE for arbitrary
+   pattern strings (pat_nullable_refuted: bracket classes), so it is not a theorem; what is proved is the soundness of
+   the tree-level analysis for every tree and the agreement of the two analyses on the generated marks. *)
 From Coq Require Import List Arith Lia Bool ZArith NArith ZifyN ZifyBool ZifyNat.
-From NV Require Import Bytes GenConsts GenConf UcDefs ReSyntax ReParse ReEmit ReVM ReSem ReProps ReProps2 ReProps3 ReProps6 ReProps7 ReProps8 ReProps10 DirDefs.
+From NV Require Import Bytes GenConsts GenConf UcDefs ReSyntax ReParse ReEmit ReVM ReSem ReProps ReProps2 ReProps3 ReProps6 ReProps7 ReProps8 ReProps10 RsetDefs DirDefs.
 Import ListNotations.
 
 Definition atom_null (a : atom) : bool :=
@@ -149,6 +150,16 @@ Proof.
   pose proof dirmarks_not_nullable as F. rewrite forallb_forall in F. specialize (F m Hin). rewrite Ht in F.
   apply andb_prop in F. destruct F as [F _]. apply negb_true_iff in F. eapply tnull_sound; eauto.
 Qed.
+(* the string-level analysis itself is NOT sound for every pattern: its bracket scanner (DirDefs.skip_bracket) ends a
+   bracket at the first ']' and does not know [:class:] items, so in "[[:alpha:]]*" it takes "[[:alpha:]" for the
+   (non-nullable) atom and the star for the literal ']': pat_nullable says false, the engine matches the empty string.
+   It is only applied to the generated dirmarks, on which it agrees with the sound tree-level analysis (above). *)
+Theorem pat_nullable_refuted : exists p rs,
+  pat_nullable p = false /\ option_map tnull (mark_tree p) = Some true /\
+  rset_make [Some p] 0%Z = Ok (Some rs) /\ fst (rset_find_d 300 rs [49; 10]%N 1 0%Z) = Ok (0%Z, [(0%Z, 0%Z)]).
+Proof. exists [91; 91; 58; 97; 108; 112; 104; 97; 58; 93; 93; 42]%N. eexists. repeat split; vm_compute; reflexivity. Qed.
+
 Print Assumptions tnull_sound.
 Print Assumptions dirmarks_not_nullable.
 Print Assumptions dirmarks_advance.
+Print Assumptions pat_nullable_refuted.
